@@ -7,6 +7,14 @@ ADV = ["Adv_DropRrsig", "Adv_DropRrset", "Adv_ReplaceRdata", "Adv_WrongSigner", 
        "Adv_NotYetValid", "Adv_AddCollidingKey", "Adv_AddExtraDs", "Adv_CorruptSigOctets", "Adv_HideCe", "Adv_ReplayAncestor", "Adv_ForgeSigned", "Adv_AddBadSig", "Adv_CorruptKey", "Adv_CorruptDs", "Adv_StripProof",
        "Adv_ForgeNsecRange", "Adv_SwapProof", "Adv_BadNsec3Label", "Adv_BadNsec3LabelSigned",
        "Adv_ZeroCounts", "Adv_ZeroTtl", "Adv_Inject", "Adv_CnameLoop"]
+# adversary actions that only the wildcard-family / anchor / config grids enable
+WILD_ADV = ["Adv_MisapplyWildcard", "Adv_DenyExisting", "Adv_SigsFirst", "Adv_Duplicate",
+            "Adv_OrphanSig", "Adv_WrongSoa"]
+MIS_KINDS = ["Below", "BelowEnt", "BelowDeep", "Outer", "At", "CnameBelow"]
+# seeded mutants of the specification's wildcard rule and the invariants that
+# must catch each (closest encloser of the denial vs. the RRSIG labels field)
+MUTANTS = [("M_wild_ce_suffix", "Soundness"), ("M_wild_target", "Soundness|HonestSecure"),
+           ("M_wild_ce_any", "Soundness")]
 VAL = ["NextQuery", "Deliver", "StartGroup", "EntProbe", "FetchNext", "VerifyKey", "VerifyDs", "Probe", "CheckGroup", "Judge"]
 ACTIONS = ["Init"] + ADV + VAL
 
@@ -61,6 +69,37 @@ def run(ctx):
                     expect_violation=inv, count=False, coverage=False)
         if not r.ok:
             raise vlib.ToolError("deviation %s does not violate %s in the model" % (dev, inv))
+    # the wildcard family (RFC 4035 5.3.4, RFC 4592, RFC 5155 8.8): expansions
+    # over one and two labels, an inner wildcard, wildcard CNAME / NODATA, and
+    # the genuine wildcard RRset replayed where a closer encloser exists
+    # (below an existing name / an empty non-terminal / two labels down /
+    # where an inner wildcard applies / at an existing name) with the genuine
+    # denial for that name.  quick: rewrites of the answer; thorough: of every
+    # message.  The same run covers DenyExisting, SigsFirst, Duplicate,
+    # OrphanSig, WrongSoa.
+    wcases = os.path.join(ctx.work, "wild.ndjson")
+    wl = ctx.tlc("MC_Validator", "MC_Validator_ext" if thorough else "MC_Validator_wild",
+                 workers=8, label="mc-wild", cases_to=wcases)
+    ctx.require_ok(wl, "MC_Validator_wild")
+    ctx.require_actions(wl, WILD_ADV + ["Adv_SwapProof", "Adv_StripProof", "Adv_DropRrset", "Judge"])
+    _wild_vacuity(wcases)
+    # the wildcard rule of the specification has teeth: relaxing the
+    # closest-encloser comparison breaks Soundness in the model
+    for mut, prop in (MUTANTS if thorough else MUTANTS[:2]):
+        cfg = _cfg_variant("MC_Validator_mut", "MC_Validator_mut_%s_%d" % (mut, os.getpid()),
+                           {"Mut": '{"%s"}' % mut})
+        try:
+            r = ctx.tlc("MC_Validator", cfg, workers=2, label="mutant-" + mut, count=False,
+                        coverage=False)
+        finally:
+            os.remove(os.path.join(vlib.SPEC, cfg + ".cfg"))
+        if r.violated not in prop.split("|"):
+            raise vlib.ToolError("spec mutant %s not caught by %s (violated=%s)" % (mut, prop, r.violated))
+        ctx.selftest("spec mutant %s violates %s" % (mut, prop), True)
+    # and without a mutant the same small model is clean
+    r = ctx.tlc("MC_Validator", "MC_Validator_mut", workers=2, label="mutant-none", count=False,
+                coverage=False)
+    ctx.require_ok(r, "MC_Validator_mut")
     # 2. S->I: every scenario against the real validator
     gen = mc
     if gen.ncases < 3000:
@@ -90,6 +129,32 @@ def run(ctx):
     rep = os.path.join(ctx.work, "replay.out")
     open(rep, "w").write(out)
     summary = _absorb(ctx, out, err, wall)
+    # the wildcard family, through validate_msg and Connection
+    wtrace = os.path.join(ctx.work, "trace-wild.ndjson")
+    rc, outw, errw, wallw = ctx.run_bin("replay_validator",
+                                        ["--conn", "--connview", connview, "--trace", wtrace,
+                                         "--open-devs", devs],
+                                        stdin_path=wcases, timeout=3000)
+    _absorb(ctx, outw, errw, wallw, label="wild")
+    # routes of anchor.rs (DS / DNSKEY anchors, from_u8 / add_u8 / from_reader,
+    # several anchors, none above the name) and of context::Config (every
+    # setter; limits that change verdicts: max_bad_signatures,
+    # max_cname_dname, NSEC3 iteration limits)
+    xtraces = [wtrace]
+    for cfgname in ("anchor", "config", "config_b"):
+        xc = os.path.join(ctx.work, cfgname + ".ndjson")
+        full = "MC_Validator_" + cfgname + ("_thorough" if thorough and cfgname != "config_b" else "")
+        xr = ctx.tlc("MC_Validator", full, workers=8, label="mc-" + cfgname, cases_to=xc,
+                     coverage=False)
+        ctx.require_ok(xr, full)
+        if xr.ncases < 200:
+            raise vlib.ToolError("too few %s scenarios: %d" % (cfgname, xr.ncases))
+        xt = os.path.join(ctx.work, "trace-%s.ndjson" % cfgname)
+        rc, outx, errx, wallx = ctx.run_bin("replay_validator",
+                                            ["--trace", xt, "--open-devs", devs],
+                                            stdin_path=xc, timeout=3000)
+        _absorb(ctx, outx, errx, wallx, label=cfgname)
+        xtraces.append(xt)
     if cases2:
         trace2 = os.path.join(ctx.work, "trace2.ndjson")
         rc, outp, errp, wallp = ctx.run_bin("replay_validator",
@@ -131,7 +196,7 @@ def run(ctx):
     # the honest grid must be classified as the property demands, by the real
     # code (this also guards the harness's own authoritative responder)
     # 3. I->S: the recorded fetch sequences are walks of the machine
-    _trace_stage(ctx, trace)
+    _trace_stage(ctx, trace, extra=xtraces)
     if cases2:
         _trace_stage(ctx, trace2, tag="p")
     # 4. denial-proof helpers against the covering predicate (hook H3)
@@ -178,26 +243,69 @@ def _absorb(ctx, out, err, wall, label="validator"):
     return summary
 
 
-def _trace_stage(ctx, trace, tag=""):
+def _blocks(path):
+    # scenarios as blocks start..done
+    blocks, cur = [], []
+    for l in open(path).read().splitlines():
+        cur.append(l)
+        if '"ev":"done"' in l:
+            blocks.append(cur)
+            cur = []
+    return blocks
+
+
+def _wild_vacuity(path):
+    """The generated grid holds every way of misapplying the wildcard under
+    every denial flavour, and the honest expansions (keyed on the inputs)."""
+    seen, honest = set(), set()
+    for l in open(path):
+        i = json.loads(l)["in"]
+        for a in i["adv"]:
+            if a["act"].startswith("MisapplyWildcard"):
+                seen.add((a["act"][16:], i["denial"]))
+        if not i["adv"] and i["shape"] == "secure3":
+            honest.add((i["qk"], i["denial"]))
+    miss = [(k, d) for k in MIS_KINDS for d in ("nsec", "nsec3", "optout") if (k, d) not in seen]
+    miss += [(q, d) for q in ("wilddeep", "wildsub", "wcname", "wcnodata")
+             for d in ("nsec", "nsec3", "optout") if (q, d) not in honest]
+    if miss:
+        raise vlib.ToolError("vacuity: wildcard scenarios never generated: %s" % miss)
+
+
+def _cfg_variant(base, name, subst):
+    """spec/<name>.cfg = spec/<base>.cfg with CONSTANT lines replaced (the
+    caller removes the file again: nothing stray stays in spec/)."""
+    import re
+    s = open(os.path.join(vlib.SPEC, base + ".cfg")).read()
+    for k, v in subst.items():
+        s, n = re.subn(r"(?m)^  %s = .*$" % k, "  %s = %s" % (k, v), s)
+        if n != 1:
+            raise vlib.ToolError("cfg variant: no constant %s in %s" % (k, base))
+    open(os.path.join(vlib.SPEC, name + ".cfg"), "w").write(s)
+    return name
+
+
+def _trace_stage(ctx, trace, tag="", extra=()):
     if not os.path.exists(trace):
         raise vlib.ToolError("no fetch trace recorded")
     if not os.path.exists(os.path.join(vlib.SPEC, "Trace_Validator.tla")):
         ctx.stage("trace", {"skipped": "Trace_Validator.tla not built"})
         return
-    lines = open(trace).read().splitlines()
-    # scenarios as blocks start..done
-    blocks, cur = [], []
-    for l in lines:
-        cur.append(l)
-        if '"ev":"done"' in l:
-            blocks.append(cur)
-            cur = []
+    blocks = _blocks(trace)
     import random
     rnd = random.Random(ctx.seed)
     rnd.shuffle(blocks)
     # one TLC run over a seeded sample of 2500 scenarios (thorough: 2 x 20000)
     blocks = blocks[:2500] if ctx.tier != "thorough" else blocks[:20000]
-    per = 2500 if ctx.tier != "thorough" else 20000
+    # plus the wildcard family (all of it) and a sample of the anchor /
+    # configuration grids
+    for k, x in enumerate(extra):
+        xb = _blocks(x)
+        if k > 0:
+            rnd.shuffle(xb)
+            xb = xb[:400] if ctx.tier != "thorough" else xb
+        blocks = xb + blocks
+    per = len(blocks) if ctx.tier != "thorough" else 20000
     nfiles = 0
     first = None
     total = 0
